@@ -256,14 +256,19 @@ def h_cmdline_b(params, s: bytes):
     _cmdline("bytes", s, list(s))
 
 
-def h_unterminated(params, c: int, k: int):
-    """Text blocks that are not terminated raise ValueError."""
+UNTERMINATED_PRE = [[], ["5a", "X", "Y", "."], ["5a", "X", "."], ["4d"], ["4c", "Z", "."], ["5a", "X", ".", "4d"], ["5c", ".", "3,4d"], ["4a", "."]]
+
+
+def h_unterminated(params, c: int, k: int, pre: int = 0):
+    """Text blocks that are not terminated raise ValueError -- also after earlier, complete commands."""
     kind = params["kind"]
     assume(0 <= c < 2)
     assume(0 <= k <= 2)
+    assume(0 <= pre < len(UNTERMINATED_PRE))
     cmd = "ac"[c]
-    old = [_enc(kind, "L%d" % i) + _nl(kind) for i in range(3)]
-    script = [_enc(kind, "2" + cmd) + _nl(kind)] + [_enc(kind, "t%d" % i) + _nl(kind) for i in range(k)]
+    old = [_enc(kind, "L%d" % i) + _nl(kind) for i in range(5)]
+    script = [_enc(kind, l) + _nl(kind) for l in UNTERMINATED_PRE[pre]]
+    script += [_enc(kind, "2" + cmd) + _nl(kind)] + [_enc(kind, "t%d" % i) + _nl(kind) for i in range(k)]
     try:
         lines = list(old)
         patch_lines(lines, patches_from_ed_script(script))
